@@ -148,8 +148,10 @@ def get_bytes_from_code(code):
         The bytes for the code, possibly compressed.
     """
     compressed_bytes = compress.compress_code(code)
-    if len(compressed_bytes) < len(code):
-        # Use compressed.
+    if len(compressed_bytes) + 8 < len(code):
+        # Use compressed, if that is smaller once its 8-byte header is
+        # counted. (Otherwise code that fits uncompressed could be refused
+        # because its slightly smaller compressed form plus header does not.)
         code_length_bytes = bytes([len(code) >> 8, len(code) & 255])
         code_bytes = b''.join(
             [b':c:\0', code_length_bytes, b'\0\0',
